@@ -144,6 +144,7 @@ type World struct {
 	stmtChanged bool
 	stmtLogged  bool
 	stmtRecOps  []byte // op byte of every log record the statement wrote so far
+	quietSuspect string // a flusher wrote to the data file after the statement's first change, lock released
 	inRecovery  bool
 	sessLocks   int // locks the session task holds (any store)
 
@@ -631,13 +632,26 @@ func (w *World) hookPageWrite(fs *storage.VerifStore, n *storage.VerifNode, b []
 	}
 }
 
+// checkQuiet: O-quiet. A data-file write by a flusher after the statement's
+// first change is a violation at once if the statement still holds the store
+// lock (the flush overlaps the changes), and otherwise as soon as the
+// statement goes on to append to the log (pages reached the file before the
+// log records that describe them). A flush after the statement released its
+// lock for good (CREATE TABLE before its own flush, a refused statement on its
+// way out) is a statement boundary and is fine.
 func (w *World) checkQuiet(st *storeState, what string) {
 	if !w.mon.Quiet || w.inRecovery {
 		return
 	}
 	if w.inStmt && w.stmtChanged && !w.stmtLogged && w.cur != nil && w.Sess != nil && w.Sess.RelationService != nil && w.Sess.RelationService.VerifStore() == st.fs {
-		w.raise("C13", "O-quiet", fmt.Sprintf("%s write to the data file by the flusher between a %s statement's first change and the completion of its log append", what, w.stmtKind),
-			map[string]string{"stmt": w.stmtKind, "what": what})
+		if st.readers > 0 {
+			w.raise("C13", "O-quiet", fmt.Sprintf("%s write to the data file by the flusher while a %s statement that already changed pages still holds the store lock", what, w.stmtKind),
+				map[string]string{"stmt": w.stmtKind, "what": what, "when": "lock-held"})
+			return
+		}
+		if w.quietSuspect == "" {
+			w.quietSuspect = what
+		}
 	}
 }
 
@@ -723,6 +737,11 @@ func (w *World) hookWalIO(f any, kind int, b []byte) {
 	w.Hash.addBytes(b)
 	switch kind {
 	case storage.VerifWalWriteLen, storage.VerifWalWriteBody:
+		if w.quietSuspect != "" && w.cur == nil && w.inStmt {
+			w.raise("C13", "O-quiet", fmt.Sprintf("%s write to the data file by the flusher between a %s statement's first change and the completion of its log append", w.quietSuspect, w.stmtKind),
+				map[string]string{"stmt": w.stmtKind, "what": w.quietSuspect, "when": "before-log"})
+			w.quietSuspect = ""
+		}
 		w.captureWal(h, kind, b)
 		w.walEvIdx++
 		h.shadow.data = append(h.shadow.data, b...)
@@ -784,6 +803,7 @@ func (w *World) BeginStmt(idx int, kind string, dirs []Directive) {
 	w.stmtChanged = false
 	w.stmtLogged = false
 	w.stmtRecOps = w.stmtRecOps[:0]
+	w.quietSuspect = ""
 }
 
 func (w *World) EndStmt() {
